@@ -261,6 +261,11 @@ func runWriters(c E1Case, prop string) (out core.Outcome) {
 	}
 	senderFault := false
 	for _, f := range c.Faults {
+		if c.Kind == "sync" && f.Op == "wr" {
+			// a synchronous call whose transport write is refused fails itself; what reports success has been written
+			r.cls.Add("sync-write-fault-injected")
+			continue
+		}
 		if f.Op == "wr" || f.Op == "flush" {
 			senderFault = true // the transport stops accepting writes: order and completeness are no longer promised (C01: "as long as the transport accepts writes")
 		}
@@ -536,6 +541,11 @@ func TestC02(t *testing.T) {
 				size := rapid.SampledFrom([]int{1, 1023, 1024, 1025, 2048, 3000, 4096}).Draw(t, "rfsize")
 				c.Tasks[0].Ops = append(c.Tasks[0].Ops[:imin(1, len(c.Tasks[0].Ops))], E1Op{Op: "readfrom", Sizes: []int{size}, N: rapid.SampledFrom([]int{700, 1024, 4096}).Draw(t, "rfstep"), EOFData: rapid.Bool().Draw(t, "rfeofdata")})
 				c.Buffered = true
+				if c.Kind == "sync" && rapid.IntRange(0, 2).Draw(t, "rffault") == 0 {
+					// one of the transport writes fails: the call that reports success all the same has lost bytes
+					// (a flush fault is not used: what a failed flush leaves in a buffered transport may still go out)
+					c.Faults = []mock.Fault{{Op: "wr", K: rapid.IntRange(1, 6).Draw(t, "rffk"), Err: rapid.SampledFrom([]string{"plain", "neterr"}).Draw(t, "rfferr")}}
+				}
 			}
 			return c
 		},
